@@ -32,10 +32,13 @@ impl Shell {
         ensures final(lg).sets == old(lg).sets.push((name@, value@)), final(lg).fields == old(lg).fields
     { unimplemented!() }
 }
-// tools::split_into_fields (IFS splitting): uninterpreted; its result is what the contract calls "the fields of the line"
+// tools::split_into_fields (IFS splitting into at most `max` fields, the last one being the rest of the line as it stands): uninterpreted;
+// its result is what the contract calls "the fields of the line". It must be asked for as many fields as there are names: with fewer the
+// last name would get one field instead of the remainder, with more the remainder would be cut into fields that are then dropped.
 #[verifier::external_body]
-pub fn split_into_fields(sh: &Shell, line: &str, envs: &HashMap<String, String>, Tracked(lg): Tracked<&mut ReadLog>) -> (r: Vec<String>)
-    ensures final(lg).fields == strs(r@), final(lg).sets == old(lg).sets
+pub fn split_into_fields(sh: &Shell, line: &str, envs: &HashMap<String, String>, max: usize, Ghost(names): Ghost<int>, Tracked(lg): Tracked<&mut ReadLog>) -> (r: Vec<String>)
+    requires max as int == names //@L C09.read.the_line_is_split_into_as_many_fields_as_there_are_names_the_last_being_the_remainder
+    ensures final(lg).fields == strs(r@), final(lg).sets == old(lg).sets, r@.len() <= max
 { unimplemented!() }
 #[verifier::external_body]
 pub fn _find_invalid_identifier(name_list: &Vec<String>) -> (r: Option<String>) { unimplemented!() }
@@ -69,7 +72,8 @@ pub fn vx_join_from(v: &Vec<String>, from: usize) -> (r: String)
 
 // THE SPECIFIED ASSIGNMENTS: names[i] := field i (or nothing) for every name but the last, which gets the remainder
 pub open spec fn field_or_empty(f: Seq<Seq<char>>, i: int) -> Seq<char> { if 0 <= i < f.len() { f[i] } else { Seq::empty() } }
-pub open spec fn remainder(f: Seq<Seq<char>>, k: int) -> Seq<char> { if f.len() > k { spec_join_sp(f.subrange(k, f.len() as int)) } else { Seq::empty() } }
+// the remainder is the k-th (last) field of a line split into k + 1 fields
+pub open spec fn remainder(f: Seq<Seq<char>>, k: int) -> Seq<char> { field_or_empty(f, k) }
 pub open spec fn read_sets(names: Seq<Seq<char>>, f: Seq<Seq<char>>, upto: int) -> Seq<(Seq<char>, Seq<char>)>
     decreases upto
 {
@@ -96,11 +100,10 @@ RW = [
     Rw('tools::split_into_fields(', 'split_into_fields(', rule='R0'),
     Rw('value_list.get(i).unwrap_or(&String::new()).clone()', 'vx_get_or_empty(&value_list, i)', required=False, rule='R12',
        why='Vec::get(i).unwrap_or(empty) through a shim with that contract'),
-    Rw('value_list[idx_2rd_last..].join(" ")', 'vx_join_from(&value_list, idx_2rd_last)', required=False, rule='R12',
-       why='slice join through a shim (text of the joined remainder uninterpreted)'),
+    Rw('value_list[idx_2rd_last].clone()', 'vx_get_or_empty(&value_list, idx_2rd_last)', required=False, rule='R7', why='String clone of an element'),
 ]
 read_run = Fn('src/builtins/read.rs', 'run', rename='read_run', ret='r', pre_rewrites=RW, clone_shims={'cmd.tokens': 'vx_clone_tokens'},
-    add_params='Tracked(lg): Tracked<&mut ReadLog>', ghost_args={'set_env': 'Tracked(lg)', 'split_into_fields': 'Tracked(lg)'},
+    add_params='Tracked(lg): Tracked<&mut ReadLog>', ghost_args={'set_env': 'Tracked(lg)', 'split_into_fields': 'Ghost(read_names(cmd.tokens@).len() as int), Tracked(lg)'},
     requires=[('C05.pre.read.command_has_a_word', 'cmd.tokens@.len() >= 1')],
     ensures=[('C09.read.fields_go_to_the_names_in_order_remainder_to_the_last',
               'final(lg).sets == old(lg).sets || final(lg).sets == old(lg).sets + read_all(read_names(cmd.tokens@), final(lg).fields)')],
@@ -118,6 +121,6 @@ UNIT = Unit('U-READ', TEMPLATE, fns=[read_run, Fn('src/types.rs', 'new', impl='C
             types=[TypeItem('src/types.rs', 'struct', 'Command'), TypeItem('src/types.rs', 'struct', 'CommandLine'), TypeItem('src/types.rs', 'struct', 'CommandResult')],
             props=('C09', 'C05'))
 TRUSTED = common.TRUSTED_STR + [
-    'tools::split_into_fields (IFS splitting) is uninterpreted: its result is "the fields of the line"; the joined remainder text is uninterpreted',
+    'tools::split_into_fields (IFS splitting) is uninterpreted: its result is "the fields of the line" (at most as many as asked for, the last being the rest of the line)',
     'Shell::set_env is external here (contract in U-ENV); reading stdin is I/O',
 ]
